@@ -306,7 +306,13 @@ def real_cases(ctx, N):
         opts = dict(method=method, step_ratio=ratio, full_output=True)
         if it % 5 == 4:
             opts['step'] = float(rng.choice([1e-6, 1e-8, 0.001]))
-        L = lim.Residue(f, pole_order=p, order=max(order, p + 1), **opts) if residue else lim.Limit(f, order=order, **opts)
+        try:
+            L = lim.Residue(f, pole_order=p, order=max(order, p + 1), **opts) if residue else lim.Limit(f, order=order, **opts)
+        except ValueError as ex:
+            # every order above pole_order is documented as valid ("order must be at least pole_order+1")
+            ctx.violation('residue-rejects-valid-order', 'Residue(f, pole_order=%d, order=%d) raises %r although order >= pole_order + 1' % (p, max(order, p + 1), ex),
+                          {'pole_order': p, 'order': max(order, p + 1), 'how': 'numdifftools.limits.Residue(lambda z: 1/z**p, pole_order=p, order=order)'})
+            continue
         desc = {'class': 'Residue' if residue else 'Limit', 'g': g.show(), 'kernel': None if residue else kname, 'pole_order': p if residue else None, 'z0': z0,
                 'method': method, 'order': L.order, 'step_ratio': ratio, 'step': opts.get('step')}
         if fill and it % 4 == 1:
@@ -410,7 +416,13 @@ def complex_cases(ctx, N):
         residue = it % 3 == 2
         f = (lambda z: g(z) / (z - z0) ** p) if residue else (lambda z: g(z) * s(z - z0))
         opts = dict(method=method, step_ratio=ratio, full_output=True)
-        L = lim.Residue(f, pole_order=p, order=max(order, p + 1), **opts) if residue else lim.Limit(f, order=order, **opts)
+        try:
+            L = lim.Residue(f, pole_order=p, order=max(order, p + 1), **opts) if residue else lim.Limit(f, order=order, **opts)
+        except ValueError as ex:
+            # every order above pole_order is documented as valid ("order must be at least pole_order+1")
+            ctx.violation('residue-rejects-valid-order', 'Residue(f, pole_order=%d, order=%d) raises %r although order >= pole_order + 1' % (p, max(order, p + 1), ex),
+                          {'pole_order': p, 'order': max(order, p + 1), 'how': 'numdifftools.limits.Residue(lambda z: 1/z**p, pole_order=p, order=order)'})
+            continue
         desc = {'class': 'Residue' if residue else 'Limit', 'g': g.show(), 'kernel': None if residue else kname, 'pole_order': p if residue else None, 'z0': repr(z0),
                 'method': method, 'order': L.order, 'step_ratio': ratio}
         try:
